@@ -765,7 +765,10 @@ def _check_offsets(env, obs, doc_path, content, before, after):
         f"offset table ({'written by this run' if rebuilt else 'pre-existing, not rebuilt'}): {table[:80]!r}"
     )
     doc_replaced = not (doc_path in before and before[doc_path][1:] == after[doc_path][1:])
-    if rebuilt:
+    if not _table_harmful(table, content):
+        # every entry the table holds is right (a complete table, or a prefix of one: slower, never wrong): the reader mis-used it
+        obs.violation("offset-table-misread", msg + " (every entry of the table is correct as far as it goes)")
+    elif rebuilt:
         obs.violation("offset-table-wrong", msg)
     elif doc_replaced and env.case["format"] not in disk.TAR_FAMILY:
         # this run wrote the document file (download / decompression) and still trusts a table that was there before: not the known
